@@ -28,6 +28,11 @@
      op 10 Dot.Sprint:          18 10 <graph> <name> haslabel n {<label(i)>}^n hasnattrs n {<attrs(i)>}^n haseattrs n { deg {<attrs(i,j)>}^deg }^n status <output bytes> pure <graph after>
              <attrs> = count { <name bytes> kind payload }*; kind 0 string <bytes>, 1 int z, 2 DotLiteral <bytes>,
              3 a bool (formatAttrs panics), 4 uint z.  The tables are empty when the has-flag is 0 (nil func).
+     op 11 history on ONE graph object:  18 11 k { len op <the line of operation op without its leading "18 op"> }^k
+             the k >= 1 calls (ops 2-8 and 10) are made one after the other on the same graph object (for a BiGraph
+             object: the result of one MakeBiGraph call); each step is judged by the check of its operation, which
+             includes "the argument after the call equals the argument before the call", and the graph printed before
+             every step must equal the graph printed before the first step.
    Verdict tag = 0 for a trivial case, else 256*op + branch bits (listed per op). *)
 From Coq Require Import FMapPositive.
 From MM Require Import Base.Num Base.GCGraph Base.GCReach Model.Marks Spec.Dfs Model.Order Spec.Scc Model.Scc Model.Graph Model.Subgraph Model.Dot.
@@ -147,7 +152,9 @@ Definition trav_bits (out : N -> list N) (n : N) (root : N) (pre : list N) : Z :
 
 Definition trav_one (out : N -> list N) (n : N) (fuel : nat) (o : trav_obs) : Z * option Z :=
   if (t_root o <? 0) || (Z.of_N n <=? t_root o) then
-    (32, if t_status o =? 2 then None else Some 0)
+    (* the call panics: status 2 and nothing else was observed (all seven lists empty) *)
+    (32, if (t_status o =? 2) && (length (t_pre o ++ t_post o ++ t_rev o ++ t_rva o ++ t_eul o ++ t_ent o ++ t_ext o) =? 0)%nat
+         then None else Some 0)
   else
     let r := Z.to_N (t_root o) in
     (* preorder / postorder are, by definition, the node projections of run_visit true false /
@@ -244,6 +251,7 @@ Definition check_scc : parser (list Z) :=
               | None => false
               end;
               (hascof =? (if flags =? 0 then 0 else 1));
+              negb (hascof =? 0) || (length cof =? 0)%nat;      (* no SubnodeComponent list without a flag *)
               (hascof =? 0) || ((length cof =? length g)%nat &&
                  match cm_build (g_n g) compsN 0%N (PositiveMap.empty N) with Some m => cof_match m cof 0%N | None => false end);
               (length outs =? length comps)%nat;
@@ -349,7 +357,8 @@ Definition check_simplify : parser (list Z) :=
           match (if weighted =? 0 then Some (unit_weights g) else zipwg g ws), zipwg rg rws with
           | Some wg, Some obs =>
               let r := simplify_multi wg in
-              let w := first_false [ status =? 0; (length obs =? length g)%nat; wgraph_eqb r obs; pure =? 1; graph_eqb g g' ] in
+              let w := first_false [ status =? 0; (length obs =? length g)%nat; wgraph_eqb r obs; pure =? 1; graph_eqb g g';
+                                     negb (weighted =? 0) || (length ws =? 0)%nat ] in
               match w with
               | None => verdict V_OK (mk_tag 6 (simp_bits g weighted r)) (-1) []
               | Some k => verdict V_MISMATCH (mk_tag 6 (Z.lor (simp_bits g weighted r) 128)) k [6; k]
@@ -381,7 +390,7 @@ Fixpoint sg_eqb (s : subgraph) (obs : list sg_obs) : bool :=
 (* compare an expected result (None = panic) with the observation *)
 Definition sg_verdict (op : Z) (bits : Z) (expected : option subgraph) (status : Z) (obs : list sg_obs) (pure : Z) (args_same : bool) : list Z :=
   let w := match expected with
-           | None => first_false [ status =? 2; pure =? 1; args_same ]
+           | None => first_false [ status =? 2; pure =? 1; args_same; (length obs =? 0)%nat ]
            | Some s => first_false [ status =? 0; sg_eqb s obs; pure =? 1; args_same ]
            end in
   match w with
@@ -498,7 +507,7 @@ Definition check_sprint : parser (list Z) :=
                      (Z.lor (if (0 <? length (concat g))%nat then 32 else 0)
                             (if (haslabel =? 0) && (hasn =? 0) && (hase =? 0) then 64 else 0)))))) in
           let w := match expected with
-                   | None => first_false [ status =? 2; pure =? 1; graph_eqb g g' ]
+                   | None => first_false [ status =? 2; pure =? 1; graph_eqb g g'; (length obs =? 0)%nat ]
                    | Some b => first_false [ status =? 0; obytes_eqb expected obs; pure =? 1; graph_eqb g g' ]
                    end in
           match w with
@@ -506,13 +515,67 @@ Definition check_sprint : parser (list Z) :=
           | Some k => verdict V_MISMATCH (mk_tag 10 (Z.lor bits 128)) k [10; k]
           end).
 
+(* ------------------------------------------------------------------ op 11: a history of calls on one graph object *)
+Definition check_op (op : Z) : parser (list Z) :=
+  if op =? 2 then check_trav else if op =? 3 then check_scc else if op =? 4 then check_bigraph else if op =? 5 then check_equal
+  else if op =? 6 then check_simplify else if op =? 7 then check_keep else if op =? 8 then check_remove
+  else if op =? 10 then check_sprint else pfail.
+
+(* branch bits: 1 traversals, 2 SCC, 4 MakeBiGraph, 8 Equal / SimplifyMulti, 16 SubgraphKeep / SubgraphRemove, 32 Dot.Sprint,
+   64 more than one step *)
+Definition hist_bit (op : Z) : Z :=
+  if op =? 2 then 1 else if op =? 3 then 2 else if op =? 4 then 4 else if (op =? 5) || (op =? 6) then 8
+  else if (op =? 7) || (op =? 8) then 16 else 32.
+
+(* k steps "len op rest" left in l; g0 = the graph of the first step (None before it); fuel >= length l.
+   A step with verdict OK continues; the first other verdict ends the history: MALFORMED stays MALFORMED, a MISMATCH is
+   reported with the step index as position and "11 op <verdict of the step>" as diagnosis; diagnosis [11; op; 98] = the
+   graph printed before this step differs from the graph printed before the first step. *)
+Fixpoint hist_go (fuel : nat) (l : list Z) (k : Z) (g0 : option graph) (idx bits : Z) : list Z :=
+  match fuel with
+  | O => (if k <=? 0 then match l with [] => verdict V_OK (mk_tag 11 bits) (-1) [] | _ => verdict V_MALFORMED 0 (-1) [11] end
+          else verdict V_MALFORMED 0 (-1) [11])
+  | S f =>
+      if k <=? 0 then match l with [] => verdict V_OK (mk_tag 11 bits) (-1) [] | _ => verdict V_MALFORMED 0 (-1) [11] end
+      else
+        match l with
+        | len :: r =>
+            match (if len <? 1 then None else ptake r len []) with
+            | Some (op :: sub, rest) =>
+                match p_graph sub with
+                | Some (g, _) =>
+                    if match g0 with Some g1 => graph_eqb g1 g | None => true end then
+                      match check_op op sub with
+                      | Some (c :: v, _) =>
+                          if c =? V_OK then
+                            hist_go f rest (k - 1) (Some (match g0 with Some g1 => g1 | None => g end)) (idx + 1)
+                                    (Z.lor (Z.lor bits (hist_bit op)) (if 0 <? idx then 64 else 0))
+                          else if c =? V_MISMATCH then verdict V_MISMATCH (mk_tag 11 (Z.lor bits 128)) idx (11 :: op :: c :: v)
+                          else verdict V_MALFORMED 0 (-1) [11; op]
+                      | _ => verdict V_MALFORMED 0 (-1) [11; op]
+                      end
+                    else verdict V_MISMATCH (mk_tag 11 (Z.lor bits 128)) idx [11; op; 98]
+                | None => verdict V_MALFORMED 0 (-1) [11; op]
+                end
+            | _ => verdict V_MALFORMED 0 (-1) [11]
+            end
+        | [] => verdict V_MALFORMED 0 (-1) [11]
+        end
+  end.
+
+Definition check_hist : parser (list Z) := fun l =>
+  match l with
+  | k :: r => if k <? 1 then None else Some (hist_go (length r) r k None 0 0, [])
+  | [] => None
+  end.
+
 (* ------------------------------------------------------------------ dispatch *)
 Definition check_C18 (line : list Z) : list Z :=
   match line with
   | 18 :: op :: rest =>
       let p := if op =? 1 then check_marks else if op =? 2 then check_trav else if op =? 3 then check_scc else if op =? 4 then check_bigraph else if op =? 5 then check_equal
                else if op =? 6 then check_simplify else if op =? 7 then check_keep else if op =? 8 then check_remove
-               else if op =? 9 then check_dotstring else if op =? 10 then check_sprint else pfail in
+               else if op =? 9 then check_dotstring else if op =? 10 then check_sprint else if op =? 11 then check_hist else pfail in
       match p rest with
       | Some (v, _) => v
       | None => verdict V_MALFORMED 0 (-1) [op]
